@@ -10,6 +10,7 @@ import MosVerif.Model.Router
 -- @component malformed MosVerif.Listeners.runMalformed
 -- @component serve MosVerif.Listeners.runServe
 -- @component rawhttp MosVerif.Listeners.runRawHttp
+-- @component refusedopt MosVerif.Listeners.runRefusedOpt
 -- @component mixstress MosVerif.Listeners.runMixStress
 -- @component udpsize MosVerif.Listeners.runUdpSize
 -- @component handlemix MosVerif.Listeners.runHandleMix
@@ -69,6 +70,18 @@ def runRawHttp (_case impl : String) : String × String :=
     else if kvGet itoks "next" != some "ok" then "viol:stopped-serving"
     else "ok"
   ("next=ok", v)
+
+/-- `refusedopt`: REFUSED answers produced outside the request handler (client limiter, too many queries in flight
+on a connection). The scenario must produce at least one refusal; every response — refused or answered — carries
+exactly one OPT without options and with the proxy's size iff its query had an OPT (C12). -/
+def runRefusedOpt (_case impl : String) : String × String :=
+  let itoks := words impl
+  let v :=
+    if impl == "panic" then "viol:panic"
+    else if kvGet itoks "optok" != some "1" then "viol:C12:opt-of-refused-answer"
+    else if kvGet itoks "refused" != some "some" then "viol:scenario-produced-no-refusal"
+    else "ok"
+  ("refused=some optok=1", v)
 
 def judgeCounts (n : Option Nat) (impl : String) : String × String :=
   match n with
@@ -139,7 +152,9 @@ def runUdpSize (case impl : String) : String × String :=
         answers := (List.range k).map (bigRecord name)
         authorities := []
         additionals := if opt then [Router.newEDNS0 Router.udpSize []] else [] }
-    let clientSize := if opt ∧ size ≥ 512 then size else 512
+    -- max(512, advertised size), and never more than a UDP datagram can carry (server_udp.go maxUdpPayloadSize):
+    -- beyond that the write fails and the client would get no response at all (C03)
+    let clientSize := Nat.min (if opt ∧ size ≥ 512 then size else 512) Facts.udp_maxPayload
     let out := match packMsg resp true clientSize (msgLen resp) with
       | .ok bs =>
         match unpackMsg bs with
